@@ -232,6 +232,12 @@ def run(ctx):
             det = 'payload = the whole %s reply: %s; buffer = header + its length: %s; length field from its length: %s' % (l4cls, whole, alloc, lens)
         rep.check(r2, ok, '%s:%s-carried-whole' % (fid.split('::')[-2], l4cls.lower()), det, '%s:%d' % (f3.file, f3.line))
 
+    # "handled address" means: a member of the configured self-IP list - which is the set main() parsed from its options and
+    # handed over as given (C02-R6, same facts)
+    from vlib.runner import borrow
+    r2b = rep.rule('C05-R2b', 'the handled addresses are the configured ones: the self-IP list reaches the stack as parsed from --self-ip-file / --self-ip-list (C02-R6)', floor=3)
+    for rid_, inst in borrow(ctx, 'C02', lambda r_, k_: r_ == 'C02-R6' and (k_.startswith('parser:') or k_ in ('main:self_ip_list', 'main:one-context', 'main:context-used'))):
+        rep.check(r2b, inst['ok'], '%s:%s' % (rid_, inst['key']), inst['detail'], inst['loc'])
     r3 = rep.rule('C05-R3', 'the converse: an ARP request / echo request / neighbour solicitation is left unanswered only for the reasons of the statement (other operation/type/code, target not handled, truncated message) - decided by enumerating the path facts of every None return', floor=4)
     from rules import silence
     silence.run_for(ctx, r3, ['layer_2::arp::repl', 'layer_4::icmpv4::repl', 'layer_4::icmpv6::repl', 'layer_4::icmpv6::nd_ns_repl'])
